@@ -314,6 +314,15 @@ func (tf *TypeFixture) buildTypeCase(bd boundary, t declType, v valKind) *Case {
 	initSetup, initRepr := tf.initOf(t)
 	T, fn := tf.T, tf.Fn
 	hasInit := false
+	want := accepts(t, v)
+	// a value the declared type must reject is offered three times (twice by one site in a
+	// loop, once by a copy): it has to be rejected every time
+	rep := func(block string) string {
+		if want {
+			return block
+		}
+		return repeatBlock(block)
+	}
 	// "-default" forms: the parameter also declares a (non-null) default value of its type;
 	// that does not make it nullable
 	base := strings.TrimSuffix(bd.name, "-default")
@@ -338,7 +347,7 @@ func (tf *TypeFixture) buildTypeCase(bd boundary, t declType, v valKind) *Case {
 		}
 		b.WriteString("$n = \"p\";\n")
 		b.WriteString(tryHead + store("$init") + tryEnd + "echo \"INIT|\", $st, \"\\n\";\n")
-		b.WriteString(tryHead + store("$val") + tryEnd + "echo \"R|\", $st, \"\\n\";\n")
+		b.WriteString(rep(tryHead + store("$val") + tryEnd + "echo \"R|\", $st, \"\\n\";\n"))
 		b.WriteString("echo \"G|\", repr($t->p), \"\\n\";\n")
 	case "prop-static", "prop-self":
 		hasInit = true
@@ -351,22 +360,22 @@ func (tf *TypeFixture) buildTypeCase(bd boundary, t declType, v valKind) *Case {
 			return T + "::set(" + rhs + ");"
 		}
 		b.WriteString(tryHead + store("$init") + tryEnd + "echo \"INIT|\", $st, \"\\n\";\n")
-		b.WriteString(tryHead + store("$val") + tryEnd + "echo \"R|\", $st, \"\\n\";\n")
+		b.WriteString(rep(tryHead + store("$val") + tryEnd + "echo \"R|\", $st, \"\\n\";\n"))
 		fmt.Fprintf(&b, "echo \"G|\", repr(%s::$sp), \"\\n\";\n", T)
 	case "prop-promoted":
 		fmt.Fprintf(&b, "class %s { public function __construct(public %s $p%s) { echo \"IN|\", repr($p), \"\\n\"; } }\n", T, ty, dx)
 		b.WriteString(valSetup)
 		b.WriteString("$t = \"none\";\n")
-		b.WriteString(tryHead + "$t = new " + T + "($val);" + tryEnd + "echo \"R|\", $st, \"\\n\";\n")
+		b.WriteString(rep(tryHead + "$t = new " + T + "($val);" + tryEnd + "echo \"R|\", $st, \"\\n\";\n"))
 		b.WriteString("if (is_object($t)) { echo \"G|\", repr($t->p), \"\\n\"; } else { echo \"G|noobject\\n\"; }\n")
 	case "func-param":
 		fmt.Fprintf(&b, "function %s(%s $x%s) { echo \"IN|\", repr($x), \"\\n\"; return 1; }\n", fn, ty, dx)
 		b.WriteString(valSetup)
-		b.WriteString(tryHead + fn + "($val);" + tryEnd + "echo \"R|\", $st, \"\\n\";\n")
+		b.WriteString(rep(tryHead + fn + "($val);" + tryEnd + "echo \"R|\", $st, \"\\n\";\n"))
 	case "func-param2":
 		fmt.Fprintf(&b, "function %s(int $a = 1, %s $x%s) { echo \"IN|\", repr($x), \"\\n\"; return 1; }\n", fn, ty, dx)
 		b.WriteString(valSetup)
-		b.WriteString(tryHead + fn + "(3, $val);" + tryEnd + "echo \"R|\", $st, \"\\n\";\n")
+		b.WriteString(rep(tryHead + fn + "(3, $val);" + tryEnd + "echo \"R|\", $st, \"\\n\";\n"))
 	case "method-param", "dynmethod-param":
 		fmt.Fprintf(&b, "class %s { public function %s(%s $x%s) { echo \"IN|\", repr($x), \"\\n\"; return 1; } }\n", T, fn, ty, dx)
 		b.WriteString(valSetup)
@@ -376,42 +385,45 @@ func (tf *TypeFixture) buildTypeCase(bd boundary, t declType, v valKind) *Case {
 			b.WriteString("$mn = \"" + fn + "\";\n")
 			call = "$t->$mn($val);"
 		}
-		b.WriteString(tryHead + call + tryEnd + "echo \"R|\", $st, \"\\n\";\n")
+		b.WriteString(rep(tryHead + call + tryEnd + "echo \"R|\", $st, \"\\n\";\n"))
 	case "static-param":
 		fmt.Fprintf(&b, "class %s { public static function %s(%s $x%s) { echo \"IN|\", repr($x), \"\\n\"; return 1; } }\n", T, fn, ty, dx)
 		b.WriteString(valSetup)
-		b.WriteString(tryHead + T + "::" + fn + "($val);" + tryEnd + "echo \"R|\", $st, \"\\n\";\n")
+		b.WriteString(rep(tryHead + T + "::" + fn + "($val);" + tryEnd + "echo \"R|\", $st, \"\\n\";\n"))
 	case "ctor-param":
 		fmt.Fprintf(&b, "class %s { public function __construct(%s $x%s) { echo \"IN|\", repr($x), \"\\n\"; } }\n", T, ty, dx)
 		b.WriteString(valSetup)
-		b.WriteString(tryHead + "$t = new " + T + "($val);" + tryEnd + "echo \"R|\", $st, \"\\n\";\n")
+		b.WriteString(rep(tryHead + "$t = new " + T + "($val);" + tryEnd + "echo \"R|\", $st, \"\\n\";\n"))
 	case "closure-param":
 		b.WriteString(valSetup)
 		fmt.Fprintf(&b, "$f = function(%s $x%s) { echo \"IN|\", repr($x), \"\\n\"; return 1; };\n", ty, dx)
-		b.WriteString(tryHead + "$f($val);" + tryEnd + "echo \"R|\", $st, \"\\n\";\n")
+		b.WriteString(rep(tryHead + "$f($val);" + tryEnd + "echo \"R|\", $st, \"\\n\";\n"))
 	case "func-return":
 		fmt.Fprintf(&b, "function %s($x): %s { return $x; }\n", fn, ty)
 		b.WriteString(valSetup + "$got = \"unset\";\n")
-		b.WriteString(tryHead + "$got = " + fn + "($val);" + tryEnd + "echo \"R|\", $st, \"\\n\";\necho \"G|\", repr($got), \"\\n\";\n")
+		b.WriteString(rep(tryHead + "$got = " + fn + "($val);" + tryEnd + "echo \"R|\", $st, \"\\n\";\n"))
+		b.WriteString("echo \"G|\", repr($got), \"\\n\";\n")
 	case "method-return":
 		fmt.Fprintf(&b, "class %s { public function %s($x): %s { return $x; } }\n", T, fn, ty)
 		b.WriteString(valSetup + "$got = \"unset\";\n")
 		fmt.Fprintf(&b, "$t = new %s();\n", T)
-		b.WriteString(tryHead + "$got = $t->" + fn + "($val);" + tryEnd + "echo \"R|\", $st, \"\\n\";\necho \"G|\", repr($got), \"\\n\";\n")
+		b.WriteString(rep(tryHead + "$got = $t->" + fn + "($val);" + tryEnd + "echo \"R|\", $st, \"\\n\";\n"))
+		b.WriteString("echo \"G|\", repr($got), \"\\n\";\n")
 	case "static-return":
 		fmt.Fprintf(&b, "class %s { public static function %s($x): %s { return $x; } }\n", T, fn, ty)
 		b.WriteString(valSetup + "$got = \"unset\";\n")
-		b.WriteString(tryHead + "$got = " + T + "::" + fn + "($val);" + tryEnd + "echo \"R|\", $st, \"\\n\";\necho \"G|\", repr($got), \"\\n\";\n")
+		b.WriteString(rep(tryHead + "$got = " + T + "::" + fn + "($val);" + tryEnd + "echo \"R|\", $st, \"\\n\";\n"))
+		b.WriteString("echo \"G|\", repr($got), \"\\n\";\n")
 	case "closure-return":
 		b.WriteString(valSetup + "$got = \"unset\";\n")
 		fmt.Fprintf(&b, "$f = function($x): %s { return $x; };\n", ty)
-		b.WriteString(tryHead + "$got = $f($val);" + tryEnd + "echo \"R|\", $st, \"\\n\";\necho \"G|\", repr($got), \"\\n\";\n")
+		b.WriteString(rep(tryHead + "$got = $f($val);" + tryEnd + "echo \"R|\", $st, \"\\n\";\n"))
+		b.WriteString("echo \"G|\", repr($got), \"\\n\";\n")
 	default:
 		panic(bd.name)
 	}
 	b.WriteString("echo \"END\\n\";\n")
 
-	want := accepts(t, v)
 	vrepr := v.repr(tf)
 	judge := func(o *Obs) (string, string) {
 		if !o.End || len(o.R) < 1 {
@@ -446,8 +458,14 @@ func (tf *TypeFixture) buildTypeCase(bd boundary, t declType, v valKind) *Case {
 			}
 			return "", ""
 		}
-		if st == "ok" {
-			return "accepts-wrong", fmt.Sprintf("declared type %s accepted %s (observed afterwards: %q, inside: %q)", t.label, v.label, g, in)
+		if cls, why := o.retryVerdict(attempts); cls != "" {
+			switch cls {
+			case "leak":
+				cls = "accepts-wrong"
+			case "leak-on-retry":
+				cls = "accepts-wrong-on-retry"
+			}
+			return cls, fmt.Sprintf("declared type %s accepted %s (%s; observed afterwards: %q, inside: %q)", t.label, v.label, why, g, in)
 		}
 		// denied: no effect
 		switch bd.group {
